@@ -31,6 +31,8 @@ fn tweak() -> impl Strategy<Value = (Tweaks, String)> {
         // the classic bookkeeping slips: the fee declared but not paid / paid twice, the mint applied with the wrong sign
         2 => prop::sample::select(vec![1i8, -1, 2]).prop_map(|k| (Tweaks { change_plus_fee: k, ..Default::default() }, "fee-not-paid-or-paid-twice".to_string())),
         2 => Just((Tweaks { mint_sign_flip: true, ..Default::default() }, "mint-applied-with-opposite-sign".to_string())),
+        1 => Just((Tweaks { no_outputs: true, ..Default::default() }, "no-outputs-all-to-fee".to_string())),
+        1 => Just((Tweaks { zero_coin_output: true, ..Default::default() }, "zero-coin-output".to_string())),
     ]
 }
 
